@@ -4,6 +4,7 @@ Every model is a hand-written summary of a std / dependency function.  Models ar
 regex on the callee path (turbofish removed).  Each run records which models were invoked.
 """
 import re, itertools, copy
+from .parse import split_top
 import z3
 from .values import *
 
@@ -402,7 +403,15 @@ def m_unwrap_or(e,run,a,f):
 def m_unwrap_or_default(e,run,a,f):
     r=a[0]
     if r.vname in ('Some','Ok'): return r.f[0]
-    raise Unsupported('unwrap_or_default')
+    m=re.search(r'(?:Option|Result)::<(.*)>::unwrap_or_default$',f)
+    t=split_top(m.group(1))[0].strip() if m else None
+    mi=re.match(r'^(u|i)(8|16|32|64|128|size)$',t or '')
+    if mi: return Int(64 if mi.group(2)=='size' else int(mi.group(2)),mi.group(1)=='i',0)
+    if t=='bool': return Bool(False)
+    if t in ('String','std::string::String','alloc::string::String'): return mk_string('')
+    if t and re.match(r'^(std::vec::)?Vec<',t): return VecO([])
+    if t and re.match(r'^(std::option::)?Option<',t): return none()
+    raise Unsupported('unwrap_or_default of '+str(t)+' in '+f[-80:])
 def m_or_else(e,run,a,f):
     r=a[0]
     if r.vname in ('Some','Ok'): return r
@@ -1923,8 +1932,14 @@ def digest_value(run,alg,bl):
     if c is not None:
         h={'SHA256':hashlib.sha256,'SHA512':hashlib.sha512,'SHA384':hashlib.sha384}.get(alg,hashlib.sha256)(c).digest()
         return Str(list(h),False,False,{'kind':'digest','alg':alg,'pre':list(bl)})
+    # a digest is a function of its input: syntactically identical pre-images share their digest bytes within a run
+    memo=run.ghost.setdefault('digest_memo',{})
+    key=(alg,tuple(x if isinstance(x,int) else ('t',x.get_id()) for x in bl))
+    if key in memo: return Str(list(memo[key][1]),False,False,{'kind':'digest','alg':alg,'pre':list(bl)})
     k=run.fresh_n['digest']; run.fresh_n['digest']+=1
-    return Str([z3.BitVec('digest%d_%d'%(k,i),8) for i in range(n)],False,False,{'kind':'digest','alg':alg,'pre':list(bl)})
+    out=[z3.BitVec('digest%d_%d'%(k,i),8) for i in range(n)]
+    memo[key]=(list(bl),out)      # keeps the terms alive, so the ids stay unique
+    return Str(list(out),False,False,{'kind':'digest','alg':alg,'pre':list(bl)})
 def m_digest_finish(e,run,a,f):
     c=deref(a[0]); return Opaque('Digest',digest_value(run,c.p['alg'],c.p['b']))
 def m_digest_as_ref(e,run,a,f): return Ref(Cell(deref(a[0]).p))
